@@ -72,6 +72,13 @@ ProjClause == IF C.padded \/ ~C.fullrank THEN "ok"      \* the range of a rank-d
               ELSE IF ~Within(FMatMul(U, FMatMul(FTr(U), Om)), Om, PITol) THEN "range-not-inside-the-linear-fit-range"
               ELSE IF ~Within(FMatMul(FMatMul(Om, FTr(Vt)), Vt), Om, PITol) THEN "co-range-not-inside-the-linear-fit-co-range"
               ELSE "ok"
+\* the map is an isometry on the range of the linear fit ALSO when that fit has deficient rank: with U_r the left singular
+\* vectors of the coefficients whose singular value is not negligible,  U_r^T Om Om^T U_r = I
+RangeCols == {j \in 1..Len(C.sv) : C.sv[j] * 50 > C.sv[1] /\ C.sv[j] > 164}
+Ur == [i \in 1..f |-> [j \in 1..Cardinality(RangeCols) |-> U[i][SortSet(RangeCols)[j]]]]
+RangeIsoClause == IF C.padded \/ RangeCols = {} THEN "ok"
+                  ELSE LET G == FMatMul(FMatMul(FTr(Ur), Om), FMatMul(FTr(Om), Ur)) IN
+                       IF ~Within(G, FEye(Cardinality(RangeCols)), PITol + 64) THEN "map-is-not-an-isometry-on-the-range-of-the-linear-fit" ELSE "ok"
 \* reduced competitors U R' Vt with R' a signed permutation of size r (residual measured in the reduced target space)
 XU == FMatMul(Xp, U)
 YV == FMatMul(Yp, FTr(Vt))
@@ -95,7 +102,7 @@ Verdict == IF C.raised THEN <<"rejected", "valid-input-raised">>
            ELSE IF FMaxAbs(Om) > 8 * S THEN <<"rejected", "weight-matrix-entries-exceed-one">>
            ELSE IF ~C.padded /\ ~SvdOK THEN <<"badwitness", "svd">>
            ELSE IF Rstar # <<>> /\ ~RstarOK THEN <<"badwitness", "competitor-not-orthogonal">>
-           ELSE LET c == First(<<OrthClause, ProjClause, NormClause, RecoverClause, OptClause, ProjOptClause>>) IN
+           ELSE LET c == First(<<OrthClause, ProjClause, RangeIsoClause, NormClause, RecoverClause, OptClause, ProjOptClause>>) IN
                 IF c = "ok" THEN <<"ok">> ELSE <<"rejected", c>>
 Emit == PrintT(ToJson([k |-> "V", id |-> C.id, v |-> Verdict, ctx |-> [padded |-> C.padded, f |-> f, t |-> t, kind |-> C.kind]]))
 =============================================================================
